@@ -7,6 +7,7 @@ use crate::rng::Rng;
 
 pub struct Ctx {
     pub rng: Rng,
+    pub seed: u64,
     pub thorough: bool,
     pub out: Vec<String>,
 }
@@ -14,6 +15,14 @@ pub struct Ctx {
 impl Ctx {
     fn push(&mut self, s: String) {
         self.out.push(s);
+    }
+    /// a block of cases with its own random stream (derived from the seed and the block's name):
+    /// adding, removing or changing such a block leaves every other case of the workload as it was
+    fn enter(&mut self, block: &str) -> Rng {
+        std::mem::replace(&mut self.rng, Rng::new(self.seed, block))
+    }
+    fn leave(&mut self, saved: Rng) {
+        self.rng = saved;
     }
 }
 
@@ -293,6 +302,46 @@ pub fn gen_c06(c: &mut Ctx) {
                     p!(c, "dflags {} {} {}", ty, t.show(), v);
                 }
             }
+            // a known structure in variable v everywhere but at ONE assignment - the last one, the
+            // first one, or the last of the first word: the class must go (seed C06-i: a one-pass
+            // classification that stops early and keeps a class the later words refute)
+            if n >= 2 {
+                let saved = c.enter(&format!("C06-near-{}-{}", n, ty));
+                let mut vs: Vec<usize> = vec![0, n - 1];
+                for v in [5usize, 6, 7] {
+                    if v < n && !vs.contains(&v) {
+                        vs.push(v);
+                    }
+                }
+                for v in vs {
+                    for kind in 0..8 {
+                        let g0 = gen_dense(&mut c.rng, n);
+                        let base = Tab::from_fn(n, |m| {
+                            let x = (m >> v) & 1 != 0;
+                            let a = g0.bit(m & !(1 << v));
+                            match kind {
+                                0 => a,
+                                1 => x,
+                                2 => !x,
+                                3 => x && a,
+                                4 => x || a,
+                                5 => !x || a,
+                                6 => !x && a,
+                                _ => x != a,
+                            }
+                        });
+                        let nb = 1usize << n;
+                        for at in [nb - 1, 0, (nb - 1).min(63)] {
+                            let mut t = base.clone();
+                            let b = t.bit(at);
+                            t.set(at, !b);
+                            p!(c, "decomp {} {} {}", ty, t.show(), v);
+                            p!(c, "dflags {} {} {}", ty, t.show(), v);
+                        }
+                    }
+                }
+                c.leave(saved);
+            }
         }
     }
 }
@@ -476,6 +525,7 @@ pub fn gen_c09(c: &mut Ctx) {
             // the byte length right and once with the character count right (seed C09-f: a parser
             // that slices the string per block before looking at the characters)
             {
+                let saved = c.enter(&format!("C09-boundary-{}-{}", n, ty));
                 let a = gen_dense(&mut c.rng, n);
                 let s: Vec<u8> = hexstr_of(&a).into_bytes();
                 let w = s.len();
@@ -509,6 +559,7 @@ pub fn gen_c09(c: &mut Ctx) {
                         }
                     }
                 }
+                c.leave(saved);
             }
             // arbitrary strings over the alphabet, lengths 0..=W+2
             let width = hexstr_of(&Tab::zero(n)).len();
@@ -585,6 +636,7 @@ pub fn gen_c07(c: &mut Ctx) {
             // of b, at every word offset (seed C07-g: a duplicate filter sliding over the
             // concatenated words), in several list orders
             if n >= 7 {
+                let saved = c.enter(&format!("C07-splice-{}-{}", n, ty));
                 let a = gen_tab(&mut c.rng, n);
                 let b = gen_tab(&mut c.rng, n);
                 let nw = a.w.len();
@@ -597,6 +649,7 @@ pub fn gen_c07(c: &mut Ctx) {
                     p!(c, "bdd {} {} {} {} {}", ty, n, cc.show(), a.show(), b.show());
                     p!(c, "bdd {} {} {} {} {} {}", ty, n, b.show(), a.show(), b.show(), cc.show());
                 }
+                c.leave(saved);
             }
             // functions of few top/bottom variables: level boundaries 5/6
             for _ in 0..reps / 2 {
@@ -670,6 +723,7 @@ pub fn gen_c04(c: &mut Ctx) {
     // words zero - on random tables a comparison that looks at one word only is right with
     // probability 1 - 2^-64 (seed C04-c: early exit when the low word of the best is zero)
     let cnt = if c.thorough { 60 } else { 14 };
+    let saved_structured = c.enter("C04-structured");
     for n in 7..=9usize {
         for k in 0..cnt {
             let t = match k % 4 {
@@ -726,6 +780,58 @@ pub fn gen_c04(c: &mut Ctx) {
             }
         }
     }
+    c.leave(saved_structured);
+    // NPN on two-word tables one of whose words is a symmetric function of six variables: the
+    // candidates then tie on one word again and again, and the comparison has to go on to the
+    // other word (seed C05-f: best updated, best index not, when the leading word ties; one
+    // random table in a thousand shows it, one structured table in four)
+    {
+        let saved = c.enter("C04-sym6");
+        let sym6: [u64; 5] = [0x6996966996696996, 0xfee8e880e8808000, 0x8000000000000000, 0xfffffffefffefee8, 0x0000000100010116];
+        for j in 0..(if c.thorough { 16 } else { 6 }) {
+            let w = c.rng.next();
+            let s = sym6[j % 5];
+            let t = if j % 2 == 0 { Tab::new(7, vec![w, s]) } else { Tab::new(7, vec![s, w & c.rng.next()]) };
+            let ty = if j % 3 == 0 { "S" } else { "D" };
+            p!(c, "npncanon {} {}", ty, t.show());
+        }
+        c.leave(saved);
+    }
+    // the ends of the walk: an input that IS its orbit's representative (best at the first step),
+    // and the complement / the flipped image of one (best at the last steps); representatives by
+    // the oracle's own enumeration of the orbit (seed C05-g: a fast path on the last walk step)
+    {
+        let saved = c.enter("C04-ends");
+        let plan2: Vec<(usize, usize)> = if c.thorough { vec![(4, 60), (5, 12), (6, 2)] } else { vec![(4, 24), (5, 4), (6, 1)] };
+        for (n, cnt) in plan2 {
+            for _ in 0..cnt {
+                let f = gen_tab(&mut c.rng, n);
+                let ty = if c.rng.coin() { "D" } else { "S" };
+                let inv = |t: &Tab| Tab::from_fn(n, |m| !t.bit(m));
+                let allflip = |t: &Tab| Tab::from_fn(n, |m| t.bit(m ^ ((1usize << n) - 1)));
+                let npn = crate::oracle::orbit_min(&f, true, true);
+                for t in [npn.clone(), inv(&npn), allflip(&npn), inv(&allflip(&npn))] {
+                    p!(c, "npncanon {} {}", ty, t.show());
+                }
+                let nrep = crate::oracle::orbit_min(&f, false, true);
+                for t in [nrep.clone(), inv(&nrep), allflip(&nrep)] {
+                    p!(c, "ncanon {} {}", ty, t.show());
+                }
+                let prep = crate::oracle::orbit_min(&f, true, false);
+                p!(c, "pcanon {} {}", ty, prep.show());
+                let rev = Tab::from_fn(n, |m| {
+                    // variables in reverse order
+                    let mut x = 0usize;
+                    for i in 0..n {
+                        x |= ((m >> i) & 1) << (n - 1 - i);
+                    }
+                    prep.bit(x)
+                });
+                p!(c, "pcanon {} {}", ty, rev.show());
+            }
+        }
+        c.leave(saved);
+    }
     for (n, cnt) in plan {
         for k in 0..cnt {
             let mut t = gen_tab(&mut c.rng, n);
@@ -773,7 +879,7 @@ pub fn gen_c10(c: &mut Ctx) {
         }
     }
     // paired lines: the oracle runs each on both types
-    let mut sub = Ctx { rng: c.rng.clone(), thorough: false, out: Vec::new() };
+    let mut sub = Ctx { rng: c.rng.clone(), seed: c.seed, thorough: false, out: Vec::new() };
     gen_c01(&mut sub);
     gen_c03(&mut sub);
     gen_c06(&mut sub);
@@ -1050,6 +1156,25 @@ pub fn gen_c12(c: &mut Ctx) {
         let q: Vec<usize> = (0..nn).map(|_| c.rng.below(32)).collect();
         p!(c, "cube fromvars {} {}", show_nats(&p), show_nats(&q));
     }
+    // equality and order of cubes (derived: lexicographic on (pos, neg)) over the 32-variable range
+    {
+        let saved = c.enter("C12-cmp");
+        for k in 0..(if c.thorough { 200 } else { 40 }) {
+            let p0 = (c.rng.next() & c.rng.next()) as u32;
+            let q0 = (c.rng.next() & c.rng.next()) as u32 & !p0;
+            let (p0, q0) = if k % 5 == 0 { (0u32, 0u32) } else { (p0, q0) };
+            for bit in [0usize, 15, 30, 31] {
+                let m = 1u32 << bit;
+                if (p0 | q0) & m == 0 {
+                    p!(c, "cube cmp {} {}", sc((p0, q0)), sc((p0 | m, q0)));
+                    p!(c, "cube cmp {} {}", sc((p0, q0 | m)), sc((p0, q0)));
+                    p!(c, "cube cmp {} {}", sc((p0 | m, q0)), sc((p0, q0 | m)));
+                }
+            }
+            p!(c, "cube cmp {} {}", sc((p0, q0)), sc((p0, q0)));
+        }
+        c.leave(saved);
+    }
 }
 
 fn se(e: (u32, bool)) -> String {
@@ -1147,6 +1272,30 @@ pub fn gen_c13(c: &mut Ctx) {
             let m = c.rng.below(1 << n);
             p!(c, "soes value {} {} {:x}", n, ja, m);
         }
+    }
+    // equality and order of exclusive cubes over the whole 32-variable range: equal pairs, pairs
+    // differing in one variable (0, 15, 30, 31), in the polarity only, in both (seed C13-i: a packed
+    // comparison key that shifts variable 31 out)
+    {
+        let saved = c.enter("C13-cmp");
+        for k in 0..(if c.thorough { 200 } else { 40 }) {
+            let v = match k % 4 {
+                0 => c.rng.next() as u32,
+                1 => (c.rng.next() & c.rng.next() & c.rng.next()) as u32,
+                2 => 1u32 << c.rng.below(32),
+                _ => 0,
+            };
+            let x = c.rng.coin();
+            for bit in [0usize, 15, 30, 31] {
+                p!(c, "ecube cmp {} {}", se((v, x)), se((v ^ (1u32 << bit), x)));
+                p!(c, "ecube cmp {} {}", se((v ^ (1u32 << bit), !x)), se((v, x)));
+            }
+            p!(c, "ecube cmp {} {}", se((v, x)), se((v, x)));
+            p!(c, "ecube cmp {} {}", se((v, x)), se((v, !x)));
+            let w = c.rng.next() as u32;
+            p!(c, "ecube cmp {} {}", se((v, x)), se((w, c.rng.coin())));
+        }
+        c.leave(saved);
     }
 }
 
@@ -1374,12 +1523,16 @@ pub fn gen_c17(c: &mut Ctx) {
             bad.push(1usize << 32);
             let step = if c.thorough { 1 } else { 5 };
             for (q, i) in bad.iter().enumerate() {
-                if q % step != 0 && *i != n && *i != n + 64 && *i != usize::MAX && *i != n + 6 && *i != 64 {
+                // always: the first bad index, the ones that wrap a 64-bit shift back into range
+                // (64 .. 64+n, and 64+6 .. 64+6+n for the cross-word stride `1 << (ind - 6)`: seed C17-h)
+                if q % step != 0 && *i != n && *i != usize::MAX && *i != n + 6 && !(64..=64 + n + 7).contains(i) {
                     continue;
                 }
+                let saved = c.enter(&format!("C17-index-{}-{}-{}", n, ty, i));
                 let a = gen_dense(&mut c.rng, n);
                 let b = gen_dense(&mut c.rng, n);
                 let ok = if n > 0 { c.rng.below(n) } else { 0 };
+                c.leave(saved);
                 p!(c, "ctor {} nth_var {} {}", ty, n, i);
                 p!(c, "flip {} ip {} {}", ty, a.show(), i);
                 p!(c, "flip {} cp {} {}", ty, a.show(), i);
@@ -1462,8 +1615,10 @@ pub fn gen_c17(c: &mut Ctx) {
         // size mismatches (dynamic type)
         for n2 in 0..=8usize {
             if n2 != n {
+                let saved = c.enter(&format!("C17-sizes-{}-{}", n, n2));
                 let a = gen_dense(&mut c.rng, n);
                 let b = gen_dense(&mut c.rng, n2);
+                c.leave(saved);
                 // every operator in every syntactic form (owned / borrowed operands, named and
                 // assigning forms): each has its own size guard (seed C17-f: one trait impl lost it)
                 for op in ["and", "or", "xor"] {
@@ -1514,7 +1669,7 @@ pub fn gen_c19(c: &mut Ctx) {
 }
 
 pub fn generate(prop: &str, thorough: bool, seed: u64) -> Vec<String> {
-    let mut c = Ctx { rng: Rng::new(seed, prop), thorough, out: Vec::new() };
+    let mut c = Ctx { rng: Rng::new(seed, prop), seed, thorough, out: Vec::new() };
     match prop {
         "C01" => gen_c01(&mut c),
         "C02" => gen_c02(&mut c),
